@@ -4,7 +4,7 @@ CONSTANTS
   MaxSpanNexus = 8
   MaxLen = 5
   PumpKs = {10, 1100, 3000}
-  PumpStride = 1
+  PumpStride = 3
   NDouble = 25
 INVARIANT Written
 CHECK_DEADLOCK FALSE
